@@ -24,7 +24,9 @@ L.append(f"""## 12. Which checks catch which changes
 
 ### 12.1 Deliberate breakages (`selftest/mutants.py`, applied by `selftest/sensitivity.py` to scratch copies)
 
-{len(MUTANTS)} mutants: the **S** lists of §6 plus the revert of every repair of §7.1. Each makes the quick check of its
+{len(MUTANTS)} mutants: the **S** lists of §6 plus the revert of every repair of §7.1, plus three for the `send_error` fault
+(`error_received()` treated as a connection loss: C04, C10; `error_received()` raising into the sender: C15; run on
+their own after the last complete run, 3 of 3 detected). Each makes the quick check of its
 property exit 1{note}.
 
 | property | mutants (all detected by `./check <property>`) |
@@ -34,7 +36,7 @@ for pid in sorted(by):
 L.append(f"""
 ### 12.2 Independently written breaking changes (`seeded/<property>-<a..q>/`)
 
-{len(metas)} changes were written by fresh sub-agents in seven rounds (a, b: first round; c, d: second round, where each
+{len(metas)} changes were written by fresh sub-agents in eight rounds (a, b: first round; c, d: second round, where each
 agent was additionally told in one line each what the first round had done, so as to do something else, and was
 pushed towards multi-step and cross-feature conditions; e, f: third round, told about both earlier rounds and pushed
 towards changes in *other* modules than the obvious one - codecs, `config.py` identity and matching helpers, the send
@@ -45,7 +47,7 @@ path, changes that need several of something at once (peers, instances, connecti
 a long history or a large value, or that rest on a wrong assumption about the event loop; n, o: sixth round, asked for
 one-to-five-line edits that break one corner of a dimension the property quantifies over, preferably one that needs a
 precise coincidence; p, q: seventh round, asked to think adversarially about what a deterministic-simulation checker
-hardened against all earlier changes would still overlook; g, j, m: spare changes some agents delivered on top). An agent got only the text of one property and a scratch
+hardened against all earlier changes would still overlook; r, s: eighth round, written after the `send_error` fault was added and asked for changes that need a failing send reported through `error_received()`; g, j, m: spare changes some agents delivered on top). An agent got only the text of one property and a scratch
 worktree of `/repo` - nothing from `/verif`. Each change comes with `patch.diff`, a demonstration `demo.py` (passes on the
 unchanged tree, fails with the patch) and `meta.json`. `tools/try_seeded.py` re-confirmed all of that in a scratch
 worktree (demo both ways, unedited test suite green with the patch) and then ran the property's quick check against the
